@@ -9,6 +9,7 @@ import (
 	"strings"
 
 	"github.com/pdfcpu/pdfcpu/pkg/api"
+	"github.com/pdfcpu/pdfcpu/pkg/pdfcpu"
 	"github.com/pdfcpu/pdfcpu/pkg/pdfcpu/model"
 	"github.com/pdfcpu/pdfcpu/pkg/pdfcpu/types"
 )
@@ -115,6 +116,22 @@ func backslash() {
 	fmt.Printf("backslash: HexLiteralToString(%s) = %q, %v\n", hl, s, err)
 }
 
+// extra: Remove with the xref table on /Dests (what RemoveBookmarks does) and the pages the destinations point to.
+func bookmarks() {
+	in := filepath.Join(repo, "pkg/testdata/test.pdf")
+	f1 := filepath.Join(scratch, "bm.pdf")
+	bms := []pdfcpu.Bookmark{{PageFrom: 1, Title: "one"}, {PageFrom: 1, Title: "two"}}
+	must(api.AddBookmarksFile(in, f1, bms, true, conf()))
+	n1, err := api.PageCountFile(f1)
+	fmt.Println("bookmarks: pages after AddBookmarks:", n1, err)
+	f2 := filepath.Join(scratch, "nobm.pdf")
+	err = api.RemoveBookmarksFile(f1, f2, conf())
+	fmt.Println("bookmarks: RemoveBookmarksFile:", err)
+	n2, err := api.PageCountFile(f2)
+	fmt.Println("bookmarks: pages after RemoveBookmarks:", n2, err)
+	fmt.Println("bookmarks: validate:", api.ValidateFile(f2, conf()))
+}
+
 // 7: a name tree whose only key is the empty string is dropped when the file is read.
 func emptyKey() {
 	ctx, err := api.ReadContextFile(filepath.Join(repo, "pkg/testdata/test.pdf"))
@@ -175,7 +192,7 @@ func main() {
 	must(err)
 	defer os.RemoveAll(scratch)
 	cases := map[string]func(){"empty-remove": emptyRemove, "chain": chain, "root-rebind": rootRebind,
-		"remove-loses-siblings": removeLosesSiblings, "backslash": backslash, "empty-key": emptyKey}
+		"remove-loses-siblings": removeLosesSiblings, "backslash": backslash, "empty-key": emptyKey, "bookmarks": bookmarks}
 	args := os.Args[1:]
 	if len(args) == 0 {
 		args = []string{"empty-remove", "chain", "root-rebind", "remove-loses-siblings", "backslash", "empty-key"}
